@@ -182,6 +182,8 @@ class Edge(metaclass=StableHashMeta):
     inners: list["Edge.Inner"] = field(default_factory=list, metadata={"type": "Element", "name": "in"})
     fixed_float: float = field(init=False, default=float("nan"), metadata={"type": "Attribute"})
     fixed_text: str = field(init=False, default="  keep  ", metadata={"type": "Element"})
+    fixed_dec: Decimal = field(init=False, default=Decimal("1.5"), metadata={"type": "Attribute"})
+    fixed_int: int = field(init=False, default=7, metadata={"type": "Element"})
     uri: Optional[str] = field(default=None, metadata={"type": "Attribute"})
     big: Optional[int] = field(default=None, metadata={"type": "Element"})
     flt: Optional[float] = field(default=None, metadata={"type": "Element"})
